@@ -121,6 +121,9 @@ def b_str(V, st, args, kwargs, node):
     v = args[0]
     if V.spec_mode:
         v = V.nn(st, v, node)
+    if isinstance(v, SV) and isinstance(v.t, OptT):
+        inner = b_str(V, st, [strip_opt(v)], kwargs, node)      # str(None) == 'None'
+        return SV(STR, z3.If(opt_is_none(v.t, v.z), z3.StringVal('None'), inner.z))
     if isinstance(v, SV):
         if v.t == STR:
             return v
